@@ -321,8 +321,8 @@ def run_shard(spec):
 def check_floors(counters, evaluations, tier):
     msgs = []
     for key, frac in (('case-variant-collision', 0.08),
-                      ('remove-then-reuse', 0.05),
-                      ('request-by-case-variant', 0.1)):
+                      ('remove-then-reuse', 0.03),
+                      ('request-by-case-variant', 0.08)):
         if counters.get(key, 0) < frac * evaluations:
             msgs.append("%s in only %d of %d cases" % (
                 key, counters.get(key, 0), evaluations))
